@@ -99,6 +99,10 @@ func c18Gen(rng *verifsim.RNG, idx int, tier string) *Plan {
 			p.Actions = append(p.Actions, Action{At: rng.Int63n(t+1) + 500, Kind: "link", If: "eth0", Oper: "down"})
 		}
 	}
+	if rng.Bool(0.2) {
+		p.Faults = append(p.Faults, Fault{Seam: "read.post", From: rng.Int63n(t + 1), Count: rng.Range(1, 4), Lat: int64(rng.Dur(time.Millisecond, 1500*time.Millisecond))})
+		p.Class += "+slow-receive"
+	}
 	p.Horizon = t + 2*nsSec
 	return p
 }
@@ -220,6 +224,25 @@ func c18Oracle(info *runInfo, res *verifsim.Result) {
 	}
 	// every message delivered to the interface's socket (well before the stop) is handled
 	delivered, handled := 0, 0
+	// a receive that is slow to return and only completes after the stop keeps
+	// everything queued behind it from being read: exempt from that park on
+	exemptFrom := int64(1) << 62
+	stopT0, _, _ := stopInstant(h, 0)
+	for i := range h.ev {
+		e := &h.ev[i]
+		if e.K != "read.post" || e.If != ifn {
+			continue
+		}
+		for j := i + 1; j < len(h.ev); j++ {
+			x := &h.ev[j]
+			if x.K == "read.exit" && x.G == e.G {
+				if stopT0 != 0 && x.T >= stopT0 && e.T < exemptFrom {
+					exemptFrom = e.T
+				}
+				break
+			}
+		}
+	}
 	for i := range h.ev {
 		e := &h.ev[i]
 		if (e.K == "act.ra" || e.K == "act.rs" || e.K == "act.ns" || e.K == "act.na") && e.If == ifn && e.Err == "" && (stopSeq == 0 || e.Seq < stopSeq) && h.deliveredAlive(e) {
@@ -227,11 +250,12 @@ func c18Oracle(info *runInfo, res *verifsim.Result) {
 		}
 	}
 	for _, g := range h.gens {
-		for _, r := range g.rxs {
-			if stopSeq == 0 || r.seq < stopSeq {
-				handled++
-			}
-		}
+		handled += len(g.rxs) // (a receive that was slow to return may complete after the stop)
+	}
+	if exemptFrom != int64(1)<<62 {
+		// a slow receive was still in progress at the stop: what was queued behind
+		// it is legitimately left unread (other runs judge this rule)
+		delivered = 0
 	}
 	if handled < delivered {
 		res.Violate("C18.fail", "unhandled", "%s: %d messages were delivered to the monitoring socket but only %d were ever read and described", ifn, delivered, handled)
